@@ -225,3 +225,51 @@ mod test {
         assert_eq!(HEADER.as_ref(), buf);
     }
 }
+
+#[cfg(feature = "verif-hooks")]
+pub(crate) mod verif_hooks {
+    //! Thin wrappers for the external verification harness; they only call the private functions above.
+    use super::*;
+
+    pub fn max_frame_length(config: &Config) -> usize {
+        network_message_frame_codec(config).max_frame_length()
+    }
+
+    /// Returns the decoded version and the number of bytes consumed.
+    pub async fn read_version_frame_bytes(mut bytes: &[u8]) -> Result<(u16, usize)> {
+        let before = bytes.len();
+        let version = read_version_frame(&mut bytes).await?;
+        Ok((version.to_u16(), before - bytes.len()))
+    }
+
+    pub async fn write_version_frame_bytes(version: Version) -> Result<Vec<u8>> {
+        let mut out = Vec::new();
+        write_version_frame(&mut out, version).await?;
+        Ok(out)
+    }
+
+    pub async fn write_request_bytes(config: &Config, request: Request<Bytes>) -> Result<Vec<u8>> {
+        let mut framed = FramedWrite::new(Vec::new(), network_message_frame_codec(config));
+        write_request(&mut framed, request).await?;
+        Ok(framed.into_inner())
+    }
+
+    pub async fn read_request_bytes(config: &Config, bytes: &[u8]) -> Result<Request<Bytes>> {
+        let mut framed = FramedRead::new(bytes, network_message_frame_codec(config));
+        read_request(&mut framed).await
+    }
+
+    pub async fn write_response_bytes(
+        config: &Config,
+        response: Response<Bytes>,
+    ) -> Result<Vec<u8>> {
+        let mut framed = FramedWrite::new(Vec::new(), network_message_frame_codec(config));
+        write_response(&mut framed, response).await?;
+        Ok(framed.into_inner())
+    }
+
+    pub async fn read_response_bytes(config: &Config, bytes: &[u8]) -> Result<Response<Bytes>> {
+        let mut framed = FramedRead::new(bytes, network_message_frame_codec(config));
+        read_response(&mut framed).await
+    }
+}
